@@ -68,8 +68,10 @@ TRUSTED = [
     "peek with a refused count is modelled as touching nothing (the real code has made a tee first: not observable)",
     "raising elements (ALV/Model/C03X.lean): which iterator types go on after an exception (map, filter, chain, tee) and "
     "which are finished by it (islice, generators), and that tee does not store an exception, are modelled from CPython's "
-    "behaviour, not verified; with copies the heap model alone is compared with the code (the event-list specification and "
-    "its theorems cover histories without copy / peek: raise_history_with_copies_PENDING)",
+    "behaviour, not verified; with copies the heap model AND the specification with copies (ALV/Spec/C03XC.lean: event lists "
+    "wherever nothing is shared, shared sequences of items read through views, an exception delivered to one view and "
+    "gone; raise_history_with_copies, raise_shared_once) are compared with the code on the whole history; the plain "
+    "event-list specification up to the first copy / peek",
     "StreamTeeHub.__del__ (MemoryLeakWarning with the number of unused copies) is an object-lifetime effect outside the "
     "Lean model: checked behaviourally by extra_checks for n = 0..3 and every number of uses taken",
     "tagged items: harness/props/c03_flavours.py maps a model item (value, tag) to the Python object that stands "
@@ -99,8 +101,9 @@ ASSUMPTIONS = [
     "calls with a refused count (Fraction / non-number / beyond sys.maxsize to take / peek) are generated on live plain "
     "Streams only (on a StreamTeeHub `take` raises AttributeError whatever the argument); counts that are accepted and "
     "astronomically large (take(sys.maxsize), skip(10**400)) are not generated: the executable list specification unrolls n "
-    "periods; skip with a count that int(round(.)) refuses raises lazily inside the generator and is not generated "
-    "(the model answers 'unsupported')",
+    "periods; skip with a count that int(round(.)) refuses raises lazily inside the generator: generated and modelled in "
+    "the raising model only (entry xhist, op skipc: inf / -inf / nan / None, skip_refused_lazy); in the entries history / "
+    "hist / calls it is not generated (the model without exceptions answers 'unsupported')",
     "a Stream subclass overriding __iter__ is covered as an argument (Stream(x), append(x), thub(x, n), tee(x, n), "
     "list(x), next(iter(x))); take / peek / copy / skip / ... called on such an instance read _data by design",
 ]
@@ -121,7 +124,9 @@ MANIFEST = {
             "or operation that raises leaves every Stream as it was (failed_call_no_trace, failed_op_no_trace, "
             "refused_call_state); with element functions and sources that raise in the middle of a stream the model refines "
             "an event-list model (raise_next, raise_take, raise_history without copies; raise_free_is_list_model; "
-            "raise_tee_once)",
+            "raise_tee_once) and, with copies / peek, a specification of event lists plus shared sequences "
+            "(raise_history_with_copies, raise_step_with_copies, raise_copies_conservative, raise_shared_once: an exception "
+            "of a shared sequence is delivered once, items to every copy); skip_refused_lazy, skip_refused_kinds",
     "note": "defect D1 (take/peek/limit/skip past the end raise RuntimeError under PEP 479) is recorded as known "
             "with four signatures; proposed_fixes/D1-take-past-end.diff repairs it (check then prints no finding)",
     "technique": "Lean 4 refinement proof (hub invariant buf ++ den parent = original, fuel-indexed next; caller "
@@ -1529,16 +1534,18 @@ def compare(case, io, drv):
     if steps is None:
         return [("model", "impl harness failed: %r" % (io,)), ("spec", "impl harness failed")]
     if case.get("entry") == "xhist":
-        # the event-list specification covers histories without copies (tee hands an exception to one copy
-        # only); with copies the heap model alone is compared
+        # the event-list specification (`spec`) covers histories without copies (tee hands an exception to one
+        # copy only): compared up to the first copy / peek.  The specification with copies (`spec_copies`:
+        # event lists wherever nothing is shared, shared sequences read through views) is compared on the WHOLE
+        # history, like the heap model.
         cut = next((k for k, op in enumerate(case["ops"]) if op["op"] in ("copy", "peek")), None)
-        for kind in ("model", "spec"):
-            a, b = (steps, drv[kind]) if (cut is None or kind == "model") else (steps[:cut], drv[kind][:cut])
+        for kind, field in (("model", "model"), ("spec", "spec"), ("spec", "spec_copies")):
+            a, b = (steps, drv[field]) if (cut is None or field != "spec") else (steps[:cut], drv[field][:cut])
             d = _first_diff(a, b)
             if d is not None:
                 k, x, y = d
                 out.append((kind, "step %d %s: impl=%s %s=%s" % (k, case["ops"][k] if k < len(case["ops"]) else None,
-                                                                 _abbr(x), kind, _abbr(y))))
+                                                                 _abbr(x), field, _abbr(y))))
         return out
     cut = _cut(case, steps, drv)
     for kind in ("model", "spec"):
